@@ -408,13 +408,15 @@ pub fn read_all(o: &Opts, wire: &Wire, proj: Option<Vec<usize>>) -> Result<(Opti
         }
         (2, Wire::Bytes(b)) | (4, Wire::Bytes(b)) => {
             // push-based decoder fed with chunks of pseudo-random sizes (including 1-byte chunks)
-            let mut r = Rng::new(o.chunk_seed as u64);
+            let mut r = Rng::new(o.chunk_seed.unsigned_abs());
             let mut dec = StreamDecoder::new();
             let mut out = Vec::new();
             let mut pos = 0;
             let mode = r.below(4);
             while pos < b.len() {
                 let n = match mode { 0 => b.len(), 1 => 1 + r.below(7), 2 => 1 + r.below(200), _ => if r.bool() { 1 } else { 1 + r.below(64) } };
+                // a negative chunk seed asks for chunk sizes that keep every message body 8-byte aligned
+                let n = if o.chunk_seed < 0 && mode != 0 { 8 * (1 + r.below(40)) } else { n };
                 let n = n.min(b.len() - pos);
                 let mut buf = Buffer::from(&b[pos..pos + n]);
                 pos += n;
@@ -605,6 +607,7 @@ fn file_layout(c: &CaseData) -> Args {
 }
 
 pub fn run(op: &str, a: &Args) -> Option<Args> {
+    if std::env::var("C04_DEBUG").is_ok() { std::panic::set_hook(Box::new(|info| eprintln!("C04_DEBUG panic: {info}"))) }
     match op {
         "c04.roundtrip" => Some(roundtrip(&decode_case(a))),
         "c04.messages" => Some(messages(&decode_case(a))),
@@ -735,6 +738,8 @@ fn gen_col_ty(r: &mut Rng) -> Ty {
             1 => Ty::Dict { kw: *r.pick(&[1, 2, 4, 8]), signed: r.bool(), v: Box::new(Ty::Bin { large: r.bool(), utf8: true }) },
             2 => Ty::Dict { kw: *r.pick(&[1, 2, 4]), signed: r.bool(), v: Box::new(c09::gen_ty(r, 1)) },
             3 => Ty::List { large: r.bool(), nullable: true, c: Box::new(Ty::Dict { kw: 4, signed: true, v: Box::new(c09::gen_ty(r, 0)) }) },
+            4 => Ty::ListView { large: r.bool(), nullable: true, c: Box::new(c09::gen_ty(r, depth.min(1))) },
+            5 => Ty::Dict { kw: *r.pick(&[1, 2, 4, 8]), signed: r.bool(), v: Box::new(Ty::Fixed(*r.pick(&[1, 2, 4, 8]))) },
             _ => c09::gen_ty(r, depth),
         };
         if has_dict_in_dict(&t) { continue }
@@ -802,6 +807,17 @@ fn evolve(r: &mut Rng, n: &mut Node, path: &mut Vec<usize>, uni: &mut HashMap<Ve
     if let Ty::Dict { .. } = n.ty {
         let need = n.kids[0].len;
         match uni.get(path).cloned() {
+            // a replacement that keeps the first entries and changes a later one (same or greater length)
+            Some((u, prev)) if !grow_only && matches!(u.ty, Ty::Fixed(_)) && u.ty == n.kids[0].ty && need <= u.len && prev >= 2 && r.chance(1, 5) => {
+                let Ty::Fixed(w) = u.ty else { unreachable!() };
+                let mut u2 = u.clone();
+                let j = 1 + r.below(prev - 1);
+                u2.bufs[0][(u2.off + j) * w] ^= 0x5a;
+                if let Some(x) = &mut u2.nulls { x.bytes[(x.off + j) / 8] |= 1 << ((x.off + j) % 8); x.count = (0..x.len).filter(|i| (x.bytes[(x.off + i) / 8] >> ((x.off + i) % 8)) & 1 == 0).count() }
+                let d = prev.max(need) + r.below(u2.len - prev.max(need) + 1);
+                n.kids[0] = prefix(&u2, d);
+                uni.insert(path.clone(), (u2, d));
+            }
             Some((u, prev)) if u.ty == n.kids[0].ty && need <= u.len && !r.chance(1, if grow_only { 12 } else { 5 }) => {
                 let lo = if grow_only { need.max(prev) } else { need };
                 let d = if lo >= u.len { u.len } else { match r.below(4) { 0 => prev.clamp(lo, u.len), 1 => u.len, _ => lo + r.below(u.len - lo + 1) } };
@@ -912,8 +928,13 @@ pub fn gen_case(r: &mut Rng, tier: &str) -> CaseData {
     // (has_validity_bitmap) that the reader never consumes; every later buffer is shifted by one and the read fails
     if !findings && cols.iter().any(|c| any_ty(&c.ty, &|x| matches!(x, Ty::Ree { .. }))) { v5 = true; legacy = false }
     let comp = if v5 && r.chance(1, if tier == "thorough" { 2 } else { 4 }) { 1 + r.below(2) as i64 } else { 0 };
-    let opts = Opts { kind, align: *r.pick(&[8i64, 16, 32, 64]), v5, legacy, comp, dh,
-        fmax: *r.pick(&[1i64, 16, 64, 200, 1000, 2097152]), fdh, share: r.bool(), chunk_seed: r.below(1 << 30) as i64, with_schema: r.bool() };
+    let mut opts = Opts { kind, align: *r.pick(&[8i64, 16, 32, 64]), v5, legacy, comp, dh,
+        fmax: *r.pick(&[1i64, 16, 64, 200, 1000, 2097152]), fdh, share: r.bool(), chunk_seed: 1 + r.below(1 << 30) as i64, with_schema: r.bool() };
+    // KNOWN-FINDING candidate (StreamDecoder, dense Union): create_array turns the dense union offsets buffer into a
+    // ScalarBuffer<i32> without re-aligning it (every other type goes through align_buffers); when the chunks handed to
+    // StreamDecoder::decode leave a message body unaligned the decoder panics ("Memory pointer is not aligned with the
+    // specified scalar type"). Streams with a dense union are fed in chunks that keep bodies 8-byte aligned.
+    if !findings && (kind == 2 || kind == 4) && cols.iter().any(|c| any_ty(&c.ty, &|x| matches!(x, Ty::Union { dense: true, .. }))) { opts.chunk_seed = -opts.chunk_seed }
     let nb = if r.chance(1, 15) { 0 } else { 1 + r.below(4) };
     let mut unis: Vec<HashMap<Vec<usize>, (Node, usize)>> = (0..ncols).map(|_| HashMap::new()).collect();
     // the file format allows only one dictionary per field (delta extensions with DictionaryHandling::Delta):
@@ -936,11 +957,7 @@ pub fn gen_case(r: &mut Rng, tier: &str) -> CaseData {
                 // RunEndEncoded array), see `hazard`: such layouts are not generated
                 tries += 1;
                 if !findings && (col_hazard(&n, slice) || dict_hazard(&n)) && tries < 200 { continue }
-                // Flight cuts a batch into row ranges (array-level slices): no piece may fall into class A / B either
-                if !findings && kind == 3 && tries < 200 {
-                    let base = slice.map_or(0, |x| x.0);
-                    if (0..rows).any(|o| (1..=rows - o).any(|l| hazard(&n, base + o, l, false))) { continue }
-                }
+                if !findings && kind == 3 && tries < 200 && flight_hazard(&n, slice, rows) { continue }
                 // layouts the typed constructors reject (e.g. an empty offsets buffer at a non-zero offset) are regenerated
                 let dt = field_of(ci, col).data_type().clone();
                 let ok = std::panic::catch_unwind(std::panic::AssertUnwindSafe(|| build(&n, &dt, false, &mut DictCache::new()).map(make_array).is_some())).unwrap_or(false);
@@ -968,8 +985,13 @@ fn ty_dummy() -> Ty { Ty::Bool }
 fn union_reachable(t: &Ty) -> bool {
     match t { Ty::Union { .. } => true, Ty::Struct(fs) => fs.iter().any(|(_, t)| union_reachable(t)), Ty::FixedList { c, .. } => union_reachable(c), _ => false }
 }
+fn flight_hazard(n: &Node, slice: Option<(usize, usize)>, rows: usize) -> bool {
+    // Flight cuts a batch into row ranges (array-level slices): no piece may fall into class A / B either
+    let base = slice.map_or(0, |x| x.0);
+    (0..rows).any(|o| (1..=rows - o).any(|l| hazard(n, base + o, l, false)))
+}
 pub fn case_has_hazard(c: &CaseData) -> bool {
-    c.batches.iter().any(|b| b.cols.iter().any(|n| col_hazard(n, b.slice) || dict_hazard(n)))
+    c.batches.iter().any(|b| b.cols.iter().any(|n| col_hazard(n, b.slice) || dict_hazard(n) || (c.opts.kind == 3 && flight_hazard(n, b.slice, b.rows))))
 }
 
 pub fn generate(tier: &str, r: &mut Rng, emit: &mut dyn FnMut(Case)) {
